@@ -171,9 +171,34 @@ def obsOfSt (s : St) : Spec.RunObs :=
 
 /-- another list representing the same set: rotated by `k / 2`, reversed when `k` is odd -/
 def permInv (k : Nat) (l : List Id) : List Id :=
-  if l.isEmpty then l else
-  let r := l.rotateLeft ((k / 2) % l.length)
+  let n := (k / 2) % (max l.length 1)
+  let r := l.drop n ++ l.take n
   if k % 2 = 1 then r.reverse else r
+
+/-- `permInv` only re-orders: the list it returns represents the same stored set -/
+theorem permInv_mem (k : Nat) (l : List Id) (x : Id) : x ∈ permInv k l ↔ x ∈ l := by
+  have h : ∀ n, x ∈ l.drop n ++ l.take n ↔ x ∈ l := by
+    intro n
+    conv => rhs; rw [← List.take_append_drop n l]
+    simp only [List.mem_append]
+    exact Or.comm
+  unfold permInv
+  simp only []
+  split
+  · rw [List.mem_reverse]; exact h _
+  · exact h _
+
+theorem permInv_length (k : Nat) (l : List Id) : (permInv k l).length = l.length := by
+  have h : ∀ n, (l.drop n ++ l.take n).length = l.length := by
+    intro n
+    conv => rhs; rw [← List.take_append_drop n l]
+    simp only [List.length_append]
+    exact Nat.add_comm _ _
+  unfold permInv
+  simp only []
+  split
+  · rw [List.length_reverse]; exact h _
+  · exact h _
 
 /-- which property's predicate to evaluate: the domain is registered once per property (`sys-C01`, …) so that each
 check reports violations of its own property; `sys` evaluates all of them -/
